@@ -19,6 +19,13 @@ if "ifdata" in sections or len(sys.argv) == 1:
 if "tokenizer" in sections or len(sys.argv) == 1:
     from rules import c16
     tab["tokenizer"] = c16.tokenizer_table(prog)
+if "dispatch" in sections or len(sys.argv) == 1:
+    from rules import c16
+    json.dump({"_comment": "reviewed: token kind and in-iteration reaching condition (canonical formula) of every token construction in tokenize_core", "rows": [r[:2] for r in c16.dispatch_rows(prog)]},
+              open(os.path.join(V, "oracle", "token_dispatch.json"), "w"), indent=1)
+if "resolve" in sections or len(sys.argv) == 1:
+    from rules import c16
+    tab["resolve"] = c16.resolve_table(prog)
 if "cursor" in sections or len(sys.argv) == 1:
     from rules import c05
     tab["cursor"] = c05.cursor_table(prog)
